@@ -19,12 +19,15 @@ sys.path.insert(0, os.path.join(vlib.VERIF, "tools"))
 import translate_fiber_atomic as tfa
 
 HARNESS = os.path.join(vlib.VERIF, "harness", "h_c19.cpp")
+# std::atomic<long double> is not lock-free: libatomic (kept although it precedes the objects on the command line)
+LINK = ["-Wl,--no-as-needed", "-latomic", "-Wl,--as-needed"]
+F80_CAS_IS_VIOLATION = True
 SCRATCH = "/var/tmp"
 
 INT_TYPES = {"i8": (8, True), "u8": (8, False), "i16": (16, True), "u16": (16, False),
              "i32": (32, True), "u32": (32, False), "i64": (64, True), "u64": (64, False)}
 PTR_TYPES = {"p4": 4, "p8": 8}
-FLT_TYPES = {"f32": 32, "f64": 64}
+FLT_TYPES = {"f32": 32, "f64": 64, "f80": 80}
 ALL_TYPES = ["b"] + list(INT_TYPES) + list(PTR_TYPES) + list(FLT_TYPES) + ["flag"]
 
 BASE_OPS = ["store", "load", "conv", "xchg", "cew1", "cew2", "ces1", "ces2"]
@@ -37,7 +40,7 @@ OPN = {"assign": "Assign", "store": "Store", "load": "Load", "conv": "Conv", "xc
        "preinc": "PreInc", "postinc": "PostInc", "predec": "PreDec", "postdec": "PostDec", "clear": "Clear", "tas": "TAS"}
 CPP_NAME = {"assign": "operator=", "store": "store", "load": "load", "conv": "operator T", "xchg": "exchange",
             "cew1": "compare_exchange_weak(e,d,order)", "cew2": "compare_exchange_weak(e,d,success,failure)",
-            "ces1": "compare_exchange_strong(e,d,order)", "ces2": "compare_exchange_strong(e,d,success,failure)",
+            "ces1": "compare_exchange_strong(e,d,order)", "cesload": "e = load(); while (!compare_exchange_strong(e,d)) ++failed  [returned = failed attempts, max 3]", "ces2": "compare_exchange_strong(e,d,success,failure)",
             "fadd": "fetch_add", "fsub": "fetch_sub", "adda": "operator+=", "suba": "operator-=", "fand": "fetch_and",
             "for": "fetch_or", "fxor": "fetch_xor", "anda": "operator&=", "ora": "operator|=", "xora": "operator^=",
             "preinc": "++x", "postinc": "x++", "predec": "--x", "postdec": "x--", "clear": "clear", "tas": "test_and_set",
@@ -69,6 +72,10 @@ def ops_of(t):
         return BASE_OPS + ADDSUB + INCDEC + BITS
     if t in PTR_TYPES:
         return BASE_OPS + ADDSUB + INCDEC
+    if t == "f80":
+        # no compare_exchange on long double: its 6 padding bytes make even std::atomic<long double>'s comparison
+        # depend on stack garbage (observed: the reference itself is not reproducible), see group "f80-cas"
+        return ["store", "load", "conv", "xchg"] + ADDSUB
     if t in FLT_TYPES:
         return BASE_OPS + ADDSUB
     return ["clear", "tas"]
@@ -82,6 +89,66 @@ def f32(x):
 def f64(x):
     import struct
     return struct.unpack("<Q", struct.pack("<d", x))[0]
+
+
+FMT = {"f32": dict(p=24, emin=-126, bias=127, ebits=8), "f64": dict(p=53, emin=-1022, bias=1023, ebits=11),
+       "f80": dict(p=64, emin=-16382, bias=16383, ebits=15)}     # f80: x87 extended, explicit integer bit
+
+
+def fenc(t, x, neg_zero=False):
+    """Bit pattern of the exactly representable rational x in format t (ValueError if it is not representable)."""
+    from fractions import Fraction
+    f = FMT[t]
+    p, emin, bias = f["p"], f["emin"], f["bias"]
+    x = Fraction(x)
+    sign = 1 if (x < 0 or neg_zero) else 0
+    ax = abs(x)
+    if ax == 0:
+        m, biased = 0, 0
+    else:
+        e = ax.numerator.bit_length() - ax.denominator.bit_length()
+        while Fraction(2) ** e > ax:
+            e -= 1
+        while Fraction(2) ** (e + 1) <= ax:
+            e += 1
+        e = max(e, emin)
+        mm = ax / Fraction(2) ** (e - (p - 1))
+        if mm.denominator != 1 or mm.numerator >= (1 << p) or e > bias:
+            raise ValueError("not representable")
+        m = mm.numerator
+        biased = e + bias if m >= (1 << (p - 1)) else 0
+    if t == "f80":
+        return (sign << 79) | (biased << 64) | m
+    return (sign << (p - 1 + f["ebits"])) | (biased << (p - 1)) | (m & ((1 << (p - 1)) - 1))
+
+
+def fdec(t, bits):
+    """(kind, exact value) of a bit pattern: kind in 'num', 'inf', 'nan'."""
+    from fractions import Fraction
+    f = FMT[t]
+    p, emin, bias, eb = f["p"], f["emin"], f["bias"], f["ebits"]
+    bits = int(bits)
+    if t == "f80":
+        sign, biased, m = (bits >> 79) & 1, (bits >> 64) & 0x7fff, bits & ((1 << 64) - 1)
+        frac_nonzero = (m & ((1 << 63) - 1)) != 0
+    else:
+        sign, biased, fr = (bits >> (p - 1 + eb)) & 1, (bits >> (p - 1)) & ((1 << eb) - 1), bits & ((1 << (p - 1)) - 1)
+        m = fr | ((1 << (p - 1)) if biased else 0)
+        frac_nonzero = fr != 0
+    if biased == (1 << eb) - 1:
+        return ("nan" if frac_nonzero else "inf"), (-1 if sign else 1)
+    e = (biased - bias) if biased else emin
+    v = Fraction(m) * Fraction(2) ** (e - (p - 1))
+    return "num", (-v if sign else v), sign
+
+
+def fspecials(t):
+    """(+inf, -0.0, quiet NaN, a second NaN payload)."""
+    if t == "f32":
+        return 0x7f800000, 0x80000000, 0x7fc00000, 0x7fc00001
+    if t == "f64":
+        return 0x7ff0000000000000, 1 << 63, 0x7ff8000000000000, 0x7ff8000000000001
+    return (0x7fff << 64) | (1 << 63), 1 << 79, (0x7fff << 64) | (3 << 62), (0x7fff << 64) | (3 << 62) | 1
 
 
 def boundaries(t, full):
@@ -102,11 +169,13 @@ def boundaries(t, full):
     if t in PTR_TYPES:
         sz = PTR_TYPES[t]
         return [32768, 32768 + sz, 32768 - sz, 32768 + 16 * sz]
-    if t == "f32":
-        return [f32(0.0), f32(1.0), f32(-1.0), f32(0.5), f32(3.0e38), f32(1e-45), f32(float("inf")), f32(-0.0), 0x7fc00000]
-    if t == "f64":
-        return [f64(0.0), f64(1.0), f64(-1.0), f64(0.5), f64(1.7e308), f64(5e-324), f64(float("inf")), f64(-0.0),
-                0x7ff8000000000000]
+    if t in FLT_TYPES:
+        from fractions import Fraction
+        f = FMT[t]
+        inf, nzero, nan, _ = fspecials(t)
+        big = Fraction((1 << f["p"]) - 1) * Fraction(2) ** (f["bias"] - (f["p"] - 1))          # largest finite
+        tiny = Fraction(2) ** (f["emin"] - (f["p"] - 1))                                    # smallest denormal
+        return [fenc(t, 0), fenc(t, 1), fenc(t, -1), fenc(t, Fraction(1, 2)), fenc(t, big), fenc(t, tiny), inf, nzero, nan]
     return [0]
 
 
@@ -121,10 +190,8 @@ def arg_boundaries(t, op, full):
 
 def is_float_special(t, v):
     """NaN or negative zero (where == and the object representation disagree)."""
-    if t == "f32":
-        return v == f32(-0.0) or (v & 0x7f800000) == 0x7f800000 and (v & 0x7fffff) != 0
-    if t == "f64":
-        return v == f64(-0.0) or (v & 0x7ff0000000000000) == 0x7ff0000000000000 and (v & 0xfffffffffffff) != 0
+    if t in FLT_TYPES:
+        return v == fspecials(t)[1] or fdec(t, v)[0] == "nan"
     return False
 
 
@@ -152,8 +219,7 @@ class Gen:
         if t in FLT_TYPES:
             # finite values in the random sequences, both zeros included (NaN / inf have their own group: arithmetic on
             # them is compared there)
-            return r.choice([x for x in b if not is_float_special(t, x)][:4] + [f32(2.0) if t == "f32" else f64(2.0)] +
-                            [f32(-0.0) if t == "f32" else f64(-0.0)])
+            return r.choice([x for x in b if not is_float_special(t, x)][:4] + [fenc(t, 2), fspecials(t)[1]])
         return r.choice(b)
 
     def rand_arg(self, t, op):
@@ -213,7 +279,7 @@ class Gen:
         reloads BITS: a failed (also a spuriously failed) compare leaves expected bitwise equal to the stored value."""
         for t in FLT_TYPES:
             vs = boundaries(t, True)
-            nan_b = 0x7fc00001 if t == "f32" else 0x7ff8000000000001       # a second NaN payload
+            nan_b = fspecials(t)[3]                                          # a second NaN payload
             sp = [v for v in vs if is_float_special(t, v)] + [nan_b]
             pool = sp + [vs[0], vs[1]]                                        # -0.0, NaN A, NaN B, +0.0, 1.0
             for v in pool:
@@ -222,9 +288,83 @@ class Gen:
                         mo = 0 if op[-1] == "1" else 6 + 8 * 6
                         for spur in (0, 1):
                             for vol in (0, 1):
-                                self.add("float-special", t, v, [(op, vol, spur, mo, e, vs[2]), ("load", 0, 0, 0, 0, 0)])
+                                if t != "f80":      # long double: see cas_load_cases
+                                    self.add("float-special", t, v, [(op, vol, spur, mo, e, vs[2]), ("load", 0, 0, 0, 0, 0)])
             for v in sp:
                 self.add("float-special", t, vs[1], [("xchg", 0, 0, 0, v, 0), ("fadd", 0, 0, 0, vs[1], 0), ("load", 0, 0, 0, 0, 0)])
+
+    def cas_load_cases(self):
+        """The CAS-loop idiom on every floating type: expected = load() (padding bytes poisoned by the harness), strong
+        compare_exchange must succeed.  float/double belong to the oracle; long double is group "f80-cas"."""
+        for t in FLT_TYPES:
+            vs = [v for v in boundaries(t, True)]
+            ops = []
+            for v in vs:
+                ops.append(("store", 0, 0, 0, v, 0))
+                ops.append(("cesload", 0, 0, 0, 0, vs[1]))
+                ops.append(("load", 0, 0, 0, 0, 0))
+            self.add("f80-cas" if t == "f80" else "float-special", t, vs[0], ops)
+
+    def rounding_cases(self):
+        """Floating fetch_add / fetch_sub / += / -= where the result depends on ONE correct rounding in T:
+        y just above / below / exactly at half an ulp of x (y = ulp(x)/2 * (1 +- 2^-k), k up to and beyond the width of
+        the wider formats, so that an intermediate in extended or double precision rounds twice), on x of different
+        shapes (powers of two, all-ones significand, 2^(p-1), values whose half-ulp is denormal), and a seeded sweep of
+        random significands with exponent differences around the significand width."""
+        from fractions import Fraction as F
+        r = self.rnd
+        ops4 = ("fadd", "fsub", "adda", "suba")
+        for t in FLT_TYPES:
+            f = FMT[t]
+            p, emin = f["p"], f["emin"]
+            xs = [F(1), F(-1), F((1 << p) - 1, 1 << (p - 1)), F(2) ** (p - 1), F(3, 2), F(2) ** (emin + p + 2),
+                  F(2) ** (emin + p - 3) * 3, F((1 << p) - 1) * F(2) ** (emin + 5), F(2) ** 100 if t != "f32" else F(2) ** 60]
+            ks = [1, 2, 3, 5, 8, 10, 11, 12, 13, 16, 20, 23, 24, 28, 29, 30, 31, 32, 40, 48, 52, 53, 60, 63, 64]
+            for x in xs:
+                ax = abs(x)
+                e = ax.numerator.bit_length() - ax.denominator.bit_length()
+                while F(2) ** e > ax:
+                    e -= 1
+                while F(2) ** (e + 1) <= ax:
+                    e += 1
+                half = F(2) ** (max(e, emin) - (p - 1)) / 2
+                ys = [half, half * 3, half / 2, half * 2]                  # exact tie (both parities), quarter, full ulp
+                for k in ks:
+                    ys += [half * (1 + F(1, 1 << k)), half * (1 - F(1, 1 << k)), half * (3 + F(1, 1 << k)), half * (3 - F(1, 1 << k))]
+                ops = []
+                try:
+                    xb = fenc(t, x)
+                except ValueError:
+                    continue
+                for y in ys:
+                    for sy in (1, -1):
+                        try:
+                            yb = fenc(t, sy * y)
+                        except ValueError:
+                            continue
+                        for op in ops4:
+                            ops.append(("store", 0, 0, 0, xb, 0))
+                            ops.append((op, 0, 0, 0, yb, 0))
+                # split into moderate sequences
+                for i in range(0, len(ops), 200):
+                    self.add("float-rounding", t, xb, ops[i:i + 200])
+            # seeded sweep: random significands, exponent difference around the significand width
+            lo, hi = {"f32": (18, 30), "f64": (40, 70), "f80": (55, 80)}[t]
+            n = 400 if self.tier == "quick" else 4000
+            ops = []
+            for _ in range(n):
+                mx = r.getrandbits(p) | (1 << (p - 1))
+                my = r.getrandbits(p) | (1 << (p - 1))
+                if r.random() < 0.3:
+                    my = (1 << (p - 1)) | (r.getrandbits(p) & ((1 << r.randrange(1, 12)) - 1))       # sparse low bits: near ties
+                ex = r.randrange(-6, 7)
+                d = r.randrange(lo, hi + 1)
+                x = F(mx) * F(2) ** (ex - (p - 1)) * r.choice((1, -1))
+                y = F(my) * F(2) ** (ex - d - (p - 1)) * r.choice((1, -1))
+                ops.append(("store", 0, 0, 0, fenc(t, x), 0))
+                ops.append((r.choice(ops4), r.randrange(2), 0, 0, fenc(t, y), 0))
+            for i in range(0, len(ops), 200):
+                self.add("float-rounding", t, fenc(t, 1), ops[i:i + 200])
 
     def random_cases(self):
         n_seq, length = (12, 30) if self.tier == "quick" else (120, 50)
@@ -360,12 +500,28 @@ def as_int(s):
 
 
 def fshow(t, bits):
-    """Bit pattern of a float/double as text: 0x80000000 (-0.0)."""
-    import struct
+    """Bit pattern of a floating value as text: 0x80000000 (-0x0p+0), exact hex-float."""
     try:
-        b = int(bits)
-        x = struct.unpack("<f", struct.pack("<I", b))[0] if t == "f32" else struct.unpack("<d", struct.pack("<Q", b))[0]
-        return "%#x (%r)" % (b, x)
+        d = fdec(t, bits)
+        if d[0] != "num":
+            txt = ("-" if d[1] < 0 else "") + d[0]
+        elif d[1] == 0:
+            txt = "-0.0" if d[2] else "0.0"
+        else:
+            v = abs(d[1])
+            e = v.numerator.bit_length() - v.denominator.bit_length()
+            while 2 ** e > v:
+                e -= 1
+            while 2 ** (e + 1) <= v:
+                e += 1
+            fr = v / (2 ** e if e >= 0 else 1) * (1 if e >= 0 else 2 ** (-e)) - 1     # in [0, 1)
+            digits = ""
+            while fr != 0 and len(digits) < 20:
+                fr *= 16
+                digits += "%x" % int(fr)
+                fr -= int(fr)
+            txt = "%s0x1%s%sp%+d" % ("-" if d[2] else "", "." if digits else "", digits, e)
+        return "%#x (%s)" % (int(bits), txt)
     except Exception:
         return str(bits)
 
@@ -417,7 +573,7 @@ def oracle(cases, results, cfg):
                 per_case += 1
                 before = before_s
                 op = c["ops"][i][0]
-                grp = "float-cas" if c["group"] == "float-special" else op
+                grp = {"float-special": "float-cas", "float-rounding": "float-rounding"}.get(c["group"], op)
                 vals = [int(before), int(c["ops"][i][4])] if c["type"] not in FLT_TYPES else [1 << 70]
                 hits.append(dict(score=(c["type"] != "i32", any(x < 0 for x in vals), any(x == 0 for x in vals) and op not in INCDEC,
                                         sum(abs(x) for x in vals)),
@@ -588,15 +744,17 @@ def main(ck):
     g.order_cases()
     g.assign_cases()
     g.float_special_cases()
+    g.rounding_cases()
+    g.cas_load_cases()
     g.ub_cases()
     cases = g.cases
     by_group = {}
     for c in cases:
         by_group.setdefault(c["group"], []).append(c)
-    main_cases = [c for c in cases if c["group"] in ("boundary", "random", "orders", "assign", "float-special")]
-    exeF, bF = vlib.compile_harness("F", [HARNESS], "c19")
-    exeT, bT = vlib.compile_harness("T", [HARNESS], "c19", extra=["-D_GLIBCXX_ASSERTIONS"])
-    exeA, bA = vlib.compile_harness("FA", [HARNESS], "c19")
+    main_cases = [c for c in cases if c["group"] in ("boundary", "random", "orders", "assign", "float-special", "float-rounding")]
+    exeF, bF = vlib.compile_harness("F", [HARNESS], "c19", extra=LINK)
+    exeT, bT = vlib.compile_harness("T", [HARNESS], "c19", extra=["-D_GLIBCXX_ASSERTIONS"] + LINK)
+    exeA, bA = vlib.compile_harness("FA", [HARNESS], "c19", extra=LINK)
     lap("build")
     res, crashes = {}, {}
     with concurrent.futures.ThreadPoolExecutor(max_workers=4) as ex:
@@ -648,6 +806,27 @@ def main(ck):
                 sig, (", libstdc++ assertion '%s'" % m.group(1)) if m else "", case_line(cc))
             key = "%s:abort:%s" % (cfg, op[0] if op else "?")
             ck.hits.append(dict(what=what, key=key, replay=dict(harness="h_c19", config=cfg, case=case_line(cc), extra=tail[-600:])))
+    # ---- long double: the CAS-loop idiom with poisoned padding (deterministic).  A disagreement is a genuine defect of
+    # the FIBER CompareExchangeHelper (it compares sizeof(T) bytes, padding included).  It is reported as a NOTE until
+    # the lead decides (fix c19-8 / known finding): set F80_CAS_IS_VIOLATION to make it a hit.
+    f80 = by_group.get("f80-cas", [])
+    for cfg, exe in (("F", exeF), ("T", exeT)):
+        if not f80:
+            break
+        r80, cr80 = run_cases(exe, f80, cfg + "f80")
+        h80, st80, _ = oracle(f80, r80, cfg)
+        total_steps += st80
+        for h in h80:
+            h["key"] = "%s:flt:f80-cas-padding" % cfg
+        if F80_CAS_IS_VIOLATION:
+            ck.hits += h80
+        elif h80:
+            notes.append("[%s] yaclib_std::atomic<long double>: the loop `e = x.load(); while (!x.compare_exchange_strong(e, d))` needs more "
+                         "attempts than with std::atomic<long double> on %d of %d values when the padding bytes of `e` differ from the stored "
+                         "object's (capped at 3 here: it never succeeds): fiber CompareExchangeHelper compares sizeof(T) = 16 bytes with memcmp "
+                         "but `expected = _value` copies only the 10 value bytes, so a CAS loop on atomic<long double> can spin forever in the "
+                         "FIBER backend; replay: %s" % (cfg, len(h80), sum(1 for c in f80 for o in c["ops"] if o[0] == "cesload"),
+                                                                        h80[0]["replay"]["case"]))
     for n in sorted(set(notes)):
         ck.notes.append(n)
     lap("run F,T + oracle")
@@ -772,7 +951,8 @@ def main(ck):
                       "UBSan process per overflow case in FA); non-trivial = distinct (backend, T, operation, cv-overload, injected "
                       "spurious failure?, stored value before, arguments) excluding plain loads and fences; sequences: boundary "
                       "operand grid per operation and type, seeded random sequences (seed %d), every accepted memory order per "
-                      "operation, NaN/-0.0 for floating compare_exchange, overflow cases" % ck.seed)
+                      "operation, NaN/-0.0 for floating compare_exchange, overflow cases, floating add/sub around half-ulp ties "
+                      "(single vs double rounding) for float/double/long double" % ck.seed)
     ck.cov["cases"] = {k: len(v) for k, v in by_group.items()}
     ck.cov["types"] = ALL_TYPES
     ck.cov["traces_validated_against_impl"] = validated
@@ -790,7 +970,7 @@ def replay(ck, path):
         print("nothing to replay: %s" % json.dumps(d)[:3000])
         return 0
     cfg = rp.get("config", "F")
-    extra = ["-D_GLIBCXX_ASSERTIONS"] if cfg == "T" else []
+    extra = (["-D_GLIBCXX_ASSERTIONS"] if cfg == "T" else []) + LINK
     exe, b = vlib.compile_harness(cfg, [HARNESS], "c19", extra=extra)
     fd, p = tempfile.mkstemp(prefix="c19.replay.", suffix=".cases", dir=SCRATCH)
     with os.fdopen(fd, "w") as f:
